@@ -151,18 +151,44 @@ def disp_hooks(chk: Check) -> None:
                 chk.ob('DISP-entering', c.qualname, has, f'{c.name} provides {field} (read when entering {member})', kind=f'field:{field}', expr=field)
     # registration on the state machine's hooks, for new and for loaded processes
     seh = prog.func('processes.Process._setup_event_hooks')
+    # (hook, callback) pairs handed to add_state_event_callback: direct arguments, or the pairs of a dict / tuple of pairs the call is looped over;
+    # a callback is a lambda or a local function: (parameter names, the one call it makes)
+    from ..rules import Resolver
+    res_h = Resolver(seh)
+    pairs = []
+    for c in calls_in_func(seh, 'add_state_event_callback'):
+        if len(c.args) != 2:
+            continue
+        loops = [l for l in ast.walk(seh.node) if isinstance(l, ast.For) and any(x is c for b in l.body for x in ast.walk(b))]
+        if loops and isinstance(loops[0].target, ast.Tuple) and [norm(e) for e in loops[0].target.elts] == [norm(a) for a in c.args]:
+            src = strip_cast(loops[0].iter)
+            if isinstance(src, ast.Call) and isinstance(src.func, ast.Attribute) and src.func.attr == 'items' and not src.args:
+                src = res_h.expand(src.func.value)
+                if isinstance(src, ast.Dict):
+                    pairs += [(k, v) for k, v in zip(src.keys, src.values) if k is not None]
+            else:
+                src = res_h.expand(src)
+                if isinstance(src, (ast.Tuple, ast.List)):
+                    pairs += [(e.elts[0], e.elts[1]) for e in src.elts if isinstance(e, (ast.Tuple, ast.List)) and len(e.elts) == 2]
+        elif not loops:
+            pairs.append((c.args[0], c.args[1]))
     table = {}
-    for d in [n for n in ast.walk(seh.node) if isinstance(n, ast.Dict)]:
-        for k, v in zip(d.keys, d.values):
-            if k is not None and isinstance(v, ast.Lambda):
-                table[norm(k).split('.')[-1]] = v
+    for k, v in pairs:
+        v = strip_cast(v)
+        if isinstance(v, ast.Lambda):
+            table[norm(k).split('.')[-1]] = ([a.arg for a in v.args.args], v.body)
+        elif isinstance(v, ast.Name) and v.id in seh.nested and not isinstance(seh.nested[v.id].node, ast.Lambda):
+            g = seh.nested[v.id].node
+            body = [st for st in g.body if not (isinstance(st, ast.Expr) and isinstance(st.value, ast.Constant))]
+            if len(body) == 1 and isinstance(body[0], (ast.Return, ast.Expr)) and body[0].value is not None:
+                table[norm(k).split('.')[-1]] = ([a.arg for a in g.args.args], body[0].value)
     want = {'ENTERING_STATE': 'self.on_entering', 'ENTERED_STATE': 'self.on_entered', 'EXITING_STATE': 'self.on_exiting'}
     for hk, target in want.items():
-        lam = table.get(hk)
-        ok = lam is not None and isinstance(lam.body, ast.Call) and norm(lam.body.func) == target
+        params_, body_ = table.get(hk, (None, None))
+        ok = body_ is not None and isinstance(body_, ast.Call) and norm(body_.func) == target
         if ok and hk != 'EXITING_STATE':
-            third = lam.args.args[2].arg if len(lam.args.args) >= 3 else None
-            ok = len(lam.body.args) == 1 and norm(strip_cast(lam.body.args[0])) == third
+            third = params_[2] if len(params_) >= 3 else None
+            ok = len(body_.args) == 1 and norm(strip_cast(body_.args[0])) == third
         chk.ob('DISP-hooks-registered', seh, ok, f'{hk} is wired to {target} with the state the machine passes', kind=f'hook:{hk}', expr=hk)
     reg = [c for c in calls_in_func(seh, 'add_state_event_callback')]
     chk.ob('DISP-hooks-registered', seh, len(reg) >= 1, 'the table is registered with add_state_event_callback', kind='registered')
@@ -191,8 +217,12 @@ def future_resolution(chk: Check) -> None:
     proc = prog.cls('processes.Process')
     allowed = {'on_finish', 'on_except', 'on_kill'}
     n = 0
+    from ..rules import subsumed_helpers
+    sub_ = subsumed_helpers(prog)
     for c in [proc] + prog.subclasses(proc):
         for f in list(c.vmethods.values()):
+            if id((getattr(f, 'origin', None) or f).node) in sub_:
+                continue   # a private helper inlined at every call site: its writes are examined as part of its callers
             for g in [f] + list(f.nested.values()):
                 for s in writer_sites(chk.ctx, g, ['self._future']):
                     n += 1
@@ -246,15 +276,17 @@ def future_resolution(chk: Check) -> None:
                node=s.call, kind='pending')
     ok_fn = prog.func('processes.Process.on_kill')
 
+    from ..rules import Resolver as _Res
+    res_k = _Res(ok_fn)
+
     def kill_arg(s) -> bool:
-        if s.op != 'set_exception' or len(s.call.args) != 1 or not isinstance(s.call.args[0], ast.Call):
-            return False
-        return norm(s.call.args[0].func).split('.')[-1] == 'KilledError'
+        a_ = res_k.expand(s.call.args[0]) if s.op == 'set_exception' and len(s.call.args) == 1 else None   # (directly, or through a local)
+        return isinstance(a_, ast.Call) and norm(a_.func).split('.')[-1] == 'KilledError'
 
     exactly_once(ok_fn, 'KILLED makes the future raise KilledError', kill_arg)
     # KilledError carries the kill text
     for s in writer_sites(chk.ctx, ok_fn, ['self._future']):
-        a = s.call.args[0] if s.call.args else None
+        a = res_k.expand(s.call.args[0]) if s.call.args else None
         txt_ok = False
         if isinstance(a, ast.Call) and a.args:
             var = norm(a.args[0])
